@@ -18,7 +18,6 @@ package c11
 import (
 	"errors"
 	"reflect"
-	"sort"
 )
 
 // S is the struct of the type pool.
@@ -127,6 +126,7 @@ var scriptVals = []scriptVal{
 	{Name: "v_ln", Src: `v_ln = [[1, 2], [3]]`, Want: []interface{}{[]interface{}{int64(1), int64(2)}, []interface{}{int64(3)}}},
 	{Name: "v_m", Src: `v_m = {"a": 1, "b": 2}`, Want: map[interface{}]interface{}{"a": int64(1), "b": int64(2)}},
 	{Name: "v_mm", Src: `v_mm = {"a": 1, "b": "x"}`, Want: map[interface{}]interface{}{"a": int64(1), "b": "x"}},
+	{Name: "v_mn", Src: `v_mn = {"a": nil, "b": 2}`, Want: map[interface{}]interface{}{"a": nil, "b": int64(2)}},
 	{Name: "v_ts", Src: "v_ts = make([]int64)\nv_ts += 4\nv_ts += 5", Want: []int64{4, 5}},
 	{Name: "v_tf", Src: "v_tf = make([]float64)\nv_tf += 1.5\nv_tf += 2.0", Want: []float64{1.5, 2}},
 	{Name: "v_tss", Src: "v_tss = make([]string)\nv_tss += \"x\"\nv_tss += \"y\"", Want: []string{"x", "y"}},
@@ -200,13 +200,4 @@ func goValByName(n string) (goVal, bool) {
 		}
 	}
 	return goVal{}, false
-}
-
-func sortedKeys(m map[string]int64) []string {
-	var k []string
-	for s := range m {
-		k = append(k, s)
-	}
-	sort.Strings(k)
-	return k
 }
